@@ -253,6 +253,57 @@ def gen_cases(chk, mags, fixbits, scale):
                 add("keep", (x, y), (), op, tag="keep")
     add("<", (1, Fraction(-(fx - 1), 2)), tag="cross-product")
     add(">", (-1, Fraction(1, fx - 1)), tag="cross-product")
+    # 8c. sparse words (see numcommon): words empty in one half / byte / bit position, both signs; sparse x sparse,
+    #     sparse x dense, sparse x fixnum, neighbours differing in one sub-word bit, exact multiples; fixed extremal
+    #     shapes plus a seeded slice in the quick tier, every two-term sum / difference as well in the thorough tier
+    SF = nc.sparse_fixed()
+    SFs = [v for m in SF for v in (m, -m)]
+    SRs = [m * rng.choice((1, -1)) for m in nc.sparse_random(rng, int((3000 if T else 300) * scale) + 20)]
+    SPs = [v for m in (nc.sparse_pairs() if T else []) for v in (m, -m)]
+    spos = nc.sparse_positions(5)
+    sfix = [1 << 32, (1 << 32) - 1, -(1 << 32), 1 << 31, -(1 << 31), 0xFFFF0000, -0xFFFF0000, (1 << 61) + (1 << 31), -((1 << 61) + (1 << 31)),
+            (1 << 62) - (1 << 32), -(1 << 62), (1 << 32) + 1, 3, -1, 0xFF00]
+    pool = SFs + SRs + SPs
+    for i in range(int((80000 if T else 6000) * scale)):
+        a = rng.choice(SFs) if (rng.random() < 0.5 or not SPs) else rng.choice(pool)
+        r = rng.random()
+        if r < 0.25:
+            b = rng.choice(pool)
+        elif r < 0.45:
+            b = rnd_int(rng, rng.choice([64, 128, 200, 320]))
+        elif r < 0.6:
+            b = rng.choice(sfix)
+        elif r < 0.8:                                   # the same number except for one bit at a sub-word position
+            b = a + rng.choice((1, -1)) * (1 << rng.choice(spos))
+        else:                                           # a = q*b + r with sparse q and b
+            b = rng.choice(SFs + sfix)
+            q = rng.choice(SFs + sfix)
+            if abs(q).bit_length() + abs(b).bit_length() > 520:
+                q = rng.choice(sfix)
+            a = q * b + rng.choice([0, 0, 1, -1, (abs(b) - 1), 1 << 32, -(1 << 32)])
+        if rng.random() < 0.4:
+            a, b = b, a
+        op = rng.choice(INT2)
+        if int_op_ok(op, a, b):
+            add(op, (a, b), tag="sparse-pair")
+    for a in (SFs if T else SFs[::3]):
+        add(rng.choice(["neg", "abs"]), (a,), tag="sparse-unary")
+        s2 = abs(a)
+        if s2.bit_length() <= 330:
+            add("exact-integer-sqrt", (s2 * s2 + rng.choice([0, 0, -1, 1, 2 * s2, 1 << 32 if s2 > (1 << 32) else 0]),), tag="sparse-sqrt")
+            add("exact-integer-sqrt", (s2,), tag="sparse-sqrt")
+        radix = rng.choice([2, 8, 10, 16, 32])
+        add("number->string", (a,), (radix,), tag="sparse-text")
+        if radix <= 16:
+            add("string->number", (), (radix,), ("-" if a < 0 else "") + to_radix(a, radix), tag="sparse-text",
+                key="string->number:int:%s" % nc.rep_class(a, fixbits))
+        if abs(a).bit_length() - (abs(a) & -abs(a)).bit_length() < 53 and abs(a).bit_length() < 1000:
+            add("inexact", (a,), tag="sparse-double", key="inexact:%s" % nc.rep_class(a, fixbits))
+        add("expt", (a,), (rng.choice([2, 3]),), tag="sparse-expt") if abs(a).bit_length() <= 200 else None
+    for c in [c for c in cases if c.tag == "sparse-pair"][::8]:
+        cases.append(Case("pad:" + c.op, c.a, c.k, "", "spare-words"))
+        if c.op in ("+", "-", "*", "/", "quotient", "remainder", "modulo", "gcd", "lcm", "floor-quotient") and c.a[1] != 0:
+            cases.append(Case("keep", c.a, (), c.op, "keep"))
     # 9. exact <-> inexact of representable values
     dbls = []
     for e in [0, 1, 2, 1022, 1023, 1024, 1074, 1075, 1076, 1023 + 52, 1023 + 53, 1023 + 61, 1023 + 62, 1023 + 63, 1023 + 64, 1023 + 127,
